@@ -68,7 +68,7 @@ func c14Run(c *core.Ctx) {
 		maxN = 4
 		units = []int64{ms, sec, hour + ms, 300000}
 	}
-	a := cueAlphabet(5, []string{"x|1\n\n2", "y"}, false)
+	a := cueAlphabet(5, []string{"x|1\n\n2", "..."}, false) // the second text is the placeholder's own: a cue of the list, not a filler
 	for _, unit := range units {
 		enumLists(a, maxN, true, true, func(l0 lm.List) bool {
 			if !c.Mine() {
